@@ -203,7 +203,7 @@ def r14(run):
         shapes = sorted(const(receiver(x.value)) for x in ast.walk(cl[0]) if isinstance(x, ast.AugAssign) and isinstance(x.value, ast.Call))
         ok = shapes == [' ClientAuth={}', ' ClientAuth={}:{}']
         tests = [t for t in ast.walk(cl[0]) if isinstance(t, ast.If)]
-        ok = ok and any(isinstance(t.test, ast.Compare) and is_none(t.test.comparators[0]) for t in tests)
+        ok = ok and any(isinstance(x, ast.Compare) and is_none(x.comparators[0]) for t in tests for x in ast.walk(t.test))
     run.ob('R14.3', u, cl[0] if cl else u.node, 'one ClientAuth item per client name, with ":blob" iff supplied', ok, slot='clientauth-loop', message='ClientAuth construction changed')
     # the descriptor listener is armed before the command (also C15)
     for c in cmds:
